@@ -44,11 +44,11 @@ func buildDispCatalog() []dShape {
 		}
 		return
 	}
-	c = append(c, dShape{has: all(func(int) bool { return true }), snap: true})               // 0 everything
+	c = append(c, dShape{has: all(func(int) bool { return true }), snap: true})                // 0 everything
 	c = append(c, dShape{has: all(func(int) bool { return true }), snap: false, cancel: true}) // 1 everything, no snapshot access, revives
 	c = append(c, dShape{has: all(func(i int) bool { return i%2 == 0 }), snap: true})          // 2
 	c = append(c, dShape{has: all(func(i int) bool { return i%2 == 1 }), snap: false, cancel: true})
-	c = append(c, dShape{})                                                                   // 4 no listeners
+	c = append(c, dShape{}) // 4 no listeners
 	c = append(c, dShape{has: all(func(i int) bool { return i%3 != 0 }), snap: true, cancel: true})
 	c = append(c, dShape{has: all(func(i int) bool { return i >= 12 && i <= 19 }), snap: false}) // 6 heal + hp/death only
 	c = append(c, dShape{has: all(func(i int) bool { return i >= 4 && i <= 11 }), snap: true})   // 7 hits only
